@@ -63,6 +63,9 @@ def run(ctx):
     # a truncated closing bracket / separator accepted as the keyword moves the returned border beyond the environment (D10)
     import fullmatch
     fullmatch.rule_P_FULLMATCH(ctx)
+    # machine proof of the border invariant the reviewed `why` entries of the lexical slice sites rest on
+    import blen
+    blen.rule_B_LEN(ctx)
     ctx.undecided = ["bounds obligations of the lexical segmenters that rest on the reviewed invariant `a returned border never exceeds the "
                      "slice it was computed on` (recorded per site in the table) rather than on a machine proof", "stack depth"]
     ctx.assumptions = ["lengths <= isize::MAX", "iterators driving `for` loops are finite", "external callees not on the may-panic list are total",
